@@ -163,6 +163,9 @@ def conclude(mod, tier, seed, results, t0, replay=None, tmp=None, extra_cov=None
                 unmet[k] = [have, need]
         if unmet:
             inconclusive.append("observation floors not met: %s" % json.dumps(unmet))
+        margins = sorted(((cats.get(k, 0) + mon.get(k, 0)) / need, k) for k, need in floors.items() if need)
+        if margins:
+            notes["tightest_floors(have/need)"] = [[k, round(r, 2)] for r, k in margins[:3]]
     # violations vs known findings -----------------------------------------
     new, seen_known = [], collections.OrderedDict()
     os.makedirs(os.path.join(OUT, "replays"), exist_ok=True)
@@ -221,7 +224,9 @@ def conclude(mod, tier, seed, results, t0, replay=None, tmp=None, extra_cov=None
         os.makedirs(os.path.join(OUT, "evidence"), exist_ok=True)
         with open(os.path.join(OUT, "evidence", pid + ".json"), "w") as f:
             json.dump(ev, f, indent=1, sort_keys=False)
-    tops = ", ".join("%s=%d" % kv for kv in mon.most_common(6))
+    tops = ", ".join("%s=%d" % kv for kv in mon.most_common(5))
+    if notes.get("tightest_floors(have/need)"):
+        tops += "] tightest-floor[%s x%.2f" % tuple(notes["tightest_floors(have/need)"][0])
     print("%s tier=%s seed=%s evaluations=%d distinct_nontrivial=%d violations=%d known=%d wall=%.1fs monitors[%s]" % (
         pid, tier, seed, evaluations, len(digests), len(new), len(seen_known), time.time() - t0, tops))
     if new:
